@@ -1276,3 +1276,95 @@ pub fn update_emissions_destination(account: Pubkey, authority: Pubkey, destinat
 pub fn compute_budget() -> Ix {
     Ix::foreign("compute_budget", crate::rt::compute_budget_id(), vec![2, 0, 0, 0, 0])
 }
+
+// ---------------- staked collateral ----------------
+
+pub fn single_pool_mint_pda(stake_pool: &Pubkey) -> Pubkey {
+    Pubkey::find_program_address(&[b"mint", stake_pool.as_ref()], &marginfi::constants::SPL_SINGLE_POOL_ID).0
+}
+pub fn single_pool_stake_pda(stake_pool: &Pubkey) -> Pubkey {
+    Pubkey::find_program_address(&[b"stake", stake_pool.as_ref()], &marginfi::constants::SPL_SINGLE_POOL_ID).0
+}
+
+pub fn init_staked_settings(
+    group: Pubkey,
+    admin: Pubkey,
+    fee_payer: Pubkey,
+    settings: marginfi::instructions::StakedSettingsConfig,
+) -> Ix {
+    mk(
+        "init_staked_settings",
+        marginfi::accounts::InitStakedSettings {
+            marginfi_group: group,
+            admin,
+            fee_payer,
+            staked_settings: staked_settings_pda(&group),
+            system_program: system_id(),
+        },
+        marginfi::instruction::InitStakedSettings { settings },
+        vec![],
+    )
+}
+
+pub fn edit_staked_settings(
+    group: Pubkey,
+    admin: Pubkey,
+    settings: marginfi::instructions::StakedSettingsEditConfig,
+) -> Ix {
+    mk(
+        "edit_staked_settings",
+        marginfi::accounts::EditStakedSettings {
+            marginfi_group: group,
+            admin,
+            staked_settings: staked_settings_pda(&group),
+        },
+        marginfi::instruction::EditStakedSettings { settings },
+        vec![],
+    )
+}
+
+pub fn propagate_staked_settings(group: Pubkey, bank: Pubkey, remaining: Vec<AccountMeta>) -> Ix {
+    mk(
+        "propagate_staked_settings",
+        marginfi::accounts::PropagateStakedSettings {
+            marginfi_group: group,
+            staked_settings: staked_settings_pda(&group),
+            bank,
+        },
+        marginfi::instruction::PropagateStakedSettings {},
+        remaining,
+    )
+}
+
+/// `b.bank` must be `bank_with_seed_pda(group, mint, seed)`.
+pub fn add_bank_permissionless(
+    b: &BankKeys,
+    fee_payer: Pubkey,
+    stake_pool: Pubkey,
+    sol_pool: Pubkey,
+    seed: u64,
+    oracle: Pubkey,
+) -> Ix {
+    mk(
+        "add_bank_permissionless",
+        marginfi::accounts::LendingPoolAddBankPermissionless {
+            marginfi_group: b.group,
+            staked_settings: staked_settings_pda(&b.group),
+            fee_payer,
+            bank_mint: b.mint,
+            sol_pool,
+            stake_pool,
+            bank: b.bank,
+            liquidity_vault_authority: b.liquidity_auth,
+            liquidity_vault: b.liquidity_vault,
+            insurance_vault_authority: b.insurance_auth,
+            insurance_vault: b.insurance_vault,
+            fee_vault_authority: b.fee_auth,
+            fee_vault: b.fee_vault,
+            token_program: b.token_program,
+            system_program: system_id(),
+        },
+        marginfi::instruction::LendingPoolAddBankPermissionless { bank_seed: seed },
+        vec![ro(oracle), ro(b.mint), ro(sol_pool)],
+    )
+}
